@@ -69,7 +69,7 @@ func tsPool() []tsItem {
 			// every other instant the kind declares (startTime, endTime, a Tombstone's deleted, ...) is a far-future decoy
 			for fi := 0; fi < x.Elem().NumField(); fi++ {
 				f := x.Elem().Type().Field(fi)
-				if f.Type == reflect.TypeOf(time.Time{}) && f.Name != "Published" && f.Name != "Updated" {
+				if f.IsExported() && f.Type == reflect.TypeOf(time.Time{}) && f.Name != "Published" && f.Name != "Updated" {
 					x.Elem().Field(fi).Set(reflect.ValueOf(time.Date(2090+fi%5, 1, 1, 0, 0, 0, 0, time.UTC)))
 				}
 			}
